@@ -1050,6 +1050,7 @@ def install(width=128):
     lib.RawPacketData = SymRaw
     lib.packets, lib.common, lib.encodings, lib.comparisons = packets, common, encodings, comparisons
     lib.calibrators, lib.parameter_types, lib.definitions, lib.containers = calibrators, parameter_types, definitions, containers
+    lib.parameters = parameters
     return lib
 
 
